@@ -140,9 +140,18 @@ pub fn append_rule(rule: Arc<Rule>) -> bool {
     let mut controller_map = CONTROLLER_MAP.lock().unwrap();
     // the helper moves every reused controller out of the old list into the new one,
     // so the new list is the complete set of controllers of the resource
+    // the rule map keeps the rules as given (including invalid ones, for the "unchanged" test of
+    // `load_rules`): only the valid ones get a controller, as in `load_rules`
+    let valid_rules: HashSet<Arc<Rule>> = rule_map
+        .get(&rule.resource)
+        .unwrap()
+        .iter()
+        .filter(|r| r.is_valid().is_ok())
+        .cloned()
+        .collect();
     let new_tcs_of_res = build_resource_traffic_shaping_controller(
         &rule.resource,
-        rule_map.get(&rule.resource).unwrap(),
+        &valid_rules,
         controller_map
             .get_mut(&rule.resource)
             .unwrap_or(&mut placeholder),
